@@ -71,6 +71,7 @@ type World struct {
 	BeforeBlock []func(w *World) // before the EndBlock of the current block
 
 	HaltOnBlockPanic bool // C37: report instead of aborting quietly
+	HaltSigPrefix    string // report only Begin/EndBlock panics raised inside this lava package (a property's own mechanism)
 	WantDigest       bool // compute TxResult.DigestBefore/After (expensive)
 	LastTxEvents     sdk.Events
 	EndBlockEvents   sdk.Events // events emitted by the last EndBlock / BeginBlock (see NextBlock)
@@ -189,8 +190,8 @@ func (w *World) guarded(phase string, f func()) {
 			st := simrt.StackOf()
 			w.R.Probe("block_panic")
 			w.R.Logf("!! %s panicked at height %d: %v", phase, w.Ctx.BlockHeight(), p)
-			if w.HaltOnBlockPanic {
-				w.R.Fail("block-panic", simrt.PanicSig(fmt.Sprint(p), st), "%s panicked at height %d time %s: %v\n%s", phase, w.Ctx.BlockHeight(), w.Ctx.BlockTime().Format(time.RFC3339), p, simrt.TrimStack(st))
+			if sig := simrt.PanicSig(fmt.Sprint(p), st); w.HaltOnBlockPanic || (w.HaltSigPrefix != "" && strings.HasPrefix(sig, w.HaltSigPrefix)) {
+				w.R.Fail("block-panic", sig, "%s panicked at height %d time %s: %v\n%s", phase, w.Ctx.BlockHeight(), w.Ctx.BlockTime().Format(time.RFC3339), p, simrt.TrimStack(st))
 			}
 			// for other properties a halted chain simply ends the run
 			w.R.Abort()
